@@ -29,10 +29,27 @@ def gen(tag, size, seed=0):
     return d
 
 
+_SPANS = {}
+
+
+def _inode_spans(data):
+    """positions of the inode fields of a content file the independent codec reproduces byte for byte (else None); memoised"""
+    k = hashlib.blake2b(data, digest_size=12).digest()
+    if k not in _SPANS:
+        if len(_SPANS) > 256:
+            _SPANS.clear()
+        try:
+            c = contentmod.decode(data)
+            _SPANS[k] = list(c.inode_spans) if contentmod.encode(c) == data else None
+        except Exception:
+            _SPANS[k] = None
+    return _SPANS[k]
+
+
 class Config:
     def __init__(self, levels=1, z=False, ndisks=2, blocksize=1, hashsize=16, hashkind="murmur3",
                  splits=None, parity_limit=None, contents=None, autosave_at=None, nohidden=False,
-                 rules=(), pool=False, disknames=None, extra_conf=(), tag=""):
+                 rules=(), pool=False, disknames=None, extra_conf=(), tag="", uuid=False):
         self.levels = levels
         self.z = z
         self.ndisks = ndisks
@@ -49,6 +66,7 @@ class Config:
         self.disknames = list(disknames or ["d%d" % (i + 1) for i in range(ndisks)])
         self.extra_conf = list(extra_conf)
         self.tag = tag
+        self.uuid = uuid        # the first two data disks report a (fake) persistent UUID: the tool then trusts inode numbers
 
     def level_name(self, l):
         if self.z and l == 2:
@@ -59,7 +77,7 @@ class Config:
         return dict(levels=self.levels, z=self.z, ndisks=self.ndisks, disknames=self.disknames, blocksize=self.blocksize,
                     hashsize=self.hashsize, hashkind=self.hashkind, splits={str(k): v for k, v in self.splits.items()},
                     contents=self.contents, parity_limit=self.parity_limit, autosave_at=self.autosave_at,
-                    nohidden=self.nohidden, rules=self.rules, pool=self.pool, extra_conf=self.extra_conf, tag=self.tag)
+                    nohidden=self.nohidden, rules=self.rules, pool=self.pool, extra_conf=self.extra_conf, tag=self.tag, uuid=getattr(self, "uuid", False))
 
     @staticmethod
     def from_dict(d):
@@ -77,12 +95,14 @@ class Config:
             s += "/c%d" % len(self.contents)
         if self.tag:
             s += "/" + self.tag
+        if getattr(self, "uuid", False):
+            s += "/uuid"
         return s
 
     def clone(self, **kw):
         c = Config(self.levels, self.z, self.ndisks, self.blocksize, self.hashsize, self.hashkind, self.splits,
                    self.parity_limit, self.contents, self.autosave_at, self.nohidden, self.rules, self.pool,
-                   self.disknames, self.extra_conf, self.tag)
+                   self.disknames, self.extra_conf, self.tag, getattr(self, "uuid", False))
         for k, v in kw.items():
             setattr(c, k, v)
         return c
@@ -374,6 +394,7 @@ class Lab:
                     t=getattr(self, "_t", 0), cfg=self.cfg, root=self.root, inodes=inodes)
 
     def restore(self, saved, inodes=True):
+        self.content_before = None
         for n in os.listdir(self.root):
             if n == "log":
                 continue
@@ -417,7 +438,7 @@ class Lab:
         like the state that was saved (same files in place), not like a disk restored from a backup.  A recorded inode
         that belonged to no file at save time is mapped to a number that belongs to no file now.  A content copy that the
         independent codec cannot reproduce byte for byte (damaged, foreign) is left alone."""
-        from . import content as C
+        C = contentmod
         cfg = saved["cfg"]
         per_disk = {}
         for rel, old in saved["inodes"].items():
@@ -435,30 +456,32 @@ class Lab:
                 if not os.path.isfile(fp) or os.path.islink(fp):
                     continue
                 data = _slurp(fp)
-                try:
-                    c = C.decode(data)
-                    if C.encode(c) != data:
-                        continue
-                except Exception:
+                spans = _inode_spans(data)
+                if not spans:
                     continue
+                out = bytearray()
+                last = 0
                 changed = False
-                for d in c.disks.values():
-                    m = per_disk.get(d.name.decode(errors="replace"), {})
-                    for f in d.files:
-                        if f.inode in m:
-                            new = m[f.inode]
-                        elif f.inode in used:
-                            spare[0] += 1
-                            new = m[f.inode] = spare[0]
-                        else:
-                            new = f.inode
-                        if new != f.inode:
-                            f.inode = new
-                            changed = True
+                for s0, e0, dname, ino in spans:
+                    m = per_disk.setdefault(dname.decode(errors="replace"), {})
+                    if ino in m:
+                        new = m[ino]
+                    elif ino in used:
+                        spare[0] += 1
+                        new = m[ino] = spare[0]
+                    else:
+                        new = ino
+                    if new != ino:
+                        out += data[last:s0] + C._b(new)
+                        last = e0
+                        changed = True
                 if changed:
+                    from . import ref
+                    out += data[last:-4]
+                    out += ref.crc32c(bytes(out)).to_bytes(4, "little")
                     st = os.lstat(fp)
                     with open(fp, "wb") as fh:
-                        fh.write(C.encode(c))
+                        fh.write(out)
                     os.utime(fp, ns=(st.st_mtime_ns, st.st_mtime_ns))
 
     def _rebase(self, ents, old_root, cfg):
@@ -494,6 +517,8 @@ class Lab:
             o += ["--test-parity-limit", str(self.cfg.parity_limit)]
         if self.cfg.autosave_at:
             o += ["--test-force-autosave-at", str(self.cfg.autosave_at)]
+        if getattr(self.cfg, "uuid", False) or os.environ.get("VP_FAKE_UUID") == "1":
+            o.append("--test-fake-uuid")
         return o
 
     def env(self, extra=None, trace=True):
@@ -526,6 +551,12 @@ class Lab:
         bracket = self.bracket if bracket is None else bracket
         before = self.snap() if bracket else None
         self.scan_versions(before)
+        # the recorded state the command starts from (first existing copy), for transition oracles
+        self.content_before = None
+        for cp in self.content_paths():
+            if os.path.isfile(cp):
+                self.content_before = _slurp(cp)
+                break
         e = self.env(env, trace)
         if exe:
             e["VP_EXE"] = os.path.realpath(exe)
